@@ -21,22 +21,22 @@ import (
 // are no-ops.
 
 type C12Entry struct {
-	Name      string `json:"name"`
-	Size      int64  `json:"size"`
-	Seed      uint64 `json:"seed"`
-	Mtime     int64  `json:"mtime"`
-	Dst       string `json:"dst"`        // missing same diffsize diffcontent emptydir symlink
-	DeltaSec  int64  `json:"delta_sec"`  // destination mtime - source mtime, seconds
-	DstNs     int64  `json:"dst_ns"`     // destination mtime nanosecond part
+	Name     string `json:"name"`
+	Size     int64  `json:"size"`
+	Seed     uint64 `json:"seed"`
+	Mtime    int64  `json:"mtime"`
+	Dst      string `json:"dst"`       // missing same diffsize diffcontent emptydir symlink
+	DeltaSec int64  `json:"delta_sec"` // destination mtime - source mtime, seconds
+	DstNs    int64  `json:"dst_ns"`    // destination mtime nanosecond part
 }
 
 type C12Scenario struct {
-	Mode    string       `json:"mode"` // table | repeat
-	Opts    []string     `json:"opts"`
-	Entries []C12Entry   `json:"entries,omitempty"`
-	Sync    *SyncScenario `json:"sync,omitempty"` // repeat mode
-	Touch   string       `json:"touch,omitempty"` // repeat mode: how the source changes before the third run: size mtime content none
-	Tr      Transport    `json:"tr"`
+	Mode    string        `json:"mode"` // table | repeat
+	Opts    []string      `json:"opts"`
+	Entries []C12Entry    `json:"entries,omitempty"`
+	Sync    *SyncScenario `json:"sync,omitempty"`  // repeat mode
+	Touch   string        `json:"touch,omitempty"` // repeat mode: how the source changes before the third run: size mtime content none
+	Tr      Transport     `json:"tr"`
 }
 
 type c12 struct{}
@@ -409,6 +409,22 @@ func c12Repeat(t *testing.T, sc *C12Scenario, job *Job, res *Result) {
 			return
 		}
 		res.Probe("touch_"+sc.Touch, 1)
+		// and the sync after that is a no-op again
+		pr4, ps4, ok := doRun("fourth")
+		if !ok {
+			return
+		}
+		if len(pr4.Requests) != 0 || len(ps4.Replies) != 0 {
+			var n4 []string
+			for _, rq := range pr4.Requests {
+				if int(rq.Idx) < len(ps4.Sorted) {
+					n4 = append(n4, ps4.Sorted[rq.Idx].Name)
+				}
+			}
+			res.Violate("repeat-not-noop", "repeat-requests-after-update:"+sc.Touch, fmt.Sprintf("opts=%v: after the changed file %q had been transferred, the next sync requested %q again", sc.Opts, target.Path, n4))
+			return
+		}
+		res.Probe("repeat_after_update_noop", 1)
 	}
 	res.NonTrivial = len(pr1.Requests) > 0
 	res.Sample = map[string]any{"mode": "repeat", "opts": sc.Opts, "first_run_requests": len(pr1.Requests), "touch": sc.Touch}
